@@ -314,6 +314,7 @@ func (c *cluster) apply(a vAct) {
 			n := struct{ r *Raft }{r}
 			switch a.S {
 			case "", "main":
+				delete(c.lastHeard, a.N) // (see elect)
 				pokeTimer(n.r.timer)
 			case "xfer":
 				// not generated: the transfer timer and the deadline of the timeout-now
@@ -328,6 +329,7 @@ func (c *cluster) apply(a vAct) {
 	case "elect":
 		// poke the election timer, then deliver only traffic from/to that node
 		if r := raftOf(c.up(a.N)); r != nil && !c.blackbox {
+			delete(c.lastHeard, a.N) // its timer "ran out": the clock-based stability oracle has no premise
 			pokeTimer(r.timer)
 			synctest.Wait()
 			h := hostOf(a.N)
